@@ -173,12 +173,16 @@ def run_history(acc, E, cfg, hist, it_args):
             E.fresh_cache[key] = [[(int(i), int(j)) for i, j in m.path] for m in ms]
         return E.fresh_cache[key]
 
+    posvals = [v for row in A[1:] for v in row[1:] if v > 0 and v != inf]
+    M = max(posvals) if posvals else None
+    clean = True          # no cell is consumed: the next match must be traced from the maximum of the matrix
     for op in hist:
         if op == 'R':
             lc.reset()
             lc.align()
             its.clear()
             used.clear()
+            clean = True
             continue
         new = []
         restarted = None
@@ -189,11 +193,22 @@ def run_history(acc, E, cfg, hist, it_args):
                 its[op] = lc.kbest_matches(**a)
                 if a['restart']:
                     used.clear()      # the first step of a restarting iterator resets the mask
+            if first_step and a['restart']:
+                clean = True
             try:
                 m = next(its[op])
                 new.append((m, a['minlen']))
             except StopIteration:
                 m = None
+            if clean and a['minlen'] == 1:
+                # "traced from a maximum": with nothing consumed and no minimal length, the match starts at a maximal cell
+                if m is None and M is not None:
+                    return 'no match although the matrix has positive cells (maximum %r)' % (M,), nmatches
+                if m is not None and (M is None or not close(A[int(m.row)][int(m.col)], M)):
+                    return 'first match after a (re)start is traced from cell (%d,%d) with affinity %r, the maximum over the admissible cells is %r' % (
+                        int(m.row) - 1, int(m.col) - 1, A[int(m.row)][int(m.col)], M), nmatches
+            if m is not None:
+                clean = False
             if first_step and a['restart']:
                 # restart=True: "start searching from start, ignore previous calls" - same first match as a fresh object
                 want = fresh_first(a)
@@ -209,6 +224,7 @@ def run_history(acc, E, cfg, hist, it_args):
             want = fresh_store()
             if got != want:
                 return 'kbest_matches_store (restart=True) returned %r, a fresh object gives %r' % (got, want), nmatches
+            clean = not keep
         for m, minlen in new:
             nmatches += 1
             path = [(int(i), int(j)) for i, j in m.path]
@@ -286,12 +302,13 @@ def universe(tier, seed, shard, nshards):
 def hist_universe(tier, seed, shard, nshards):
     A = univ.alphabet(univ.BASE3, seed)
     a0, a1, a2 = A
-    data = [((a0, a1, a2, a1, a0, a1, a2), None), ((a0, a1, a2, a1), (a1, a2, a1, a0, a0)), ((a2, a0, a0, a2, a0), (a0, a0, a2)), ((a1, a1, a1, a1), None)]
+    data = [((a0, a1, a2, a1, a0, a1, a2), None), ((a0, a1, a2, a1), (a1, a2, a1, a0, a0)), ((a2, a0, a0, a2, a0), (a0, a0, a2)), ((a1, a1, a1, a1), None),
+            ((a0, a1, a2), (a1, a1, a0, a1, a2)), ((a2, a0), (a1, a1, a1, a2, a0))]
     idx = 0
     for s1, s2 in data:
         for tau, delta, df in ((0, 0, 1), (0.5, -0.5, 0.5)):
             for pen in (None, 0.1):
-                for w in (None, 2):
+                for w in ((None, 2) if (s2 is None or len(s2) - len(s1) < 2) else (1, 2)):
                     for use_c, compact in ((False, False), (True, False), (True, True)):
                         idx += 1
                         if idx % nshards != shard:
@@ -322,7 +339,7 @@ def run(ctx):
              'wps_expand_slice (every slice for a quarter of the small pairs); histories: every sequence up to depth %d over {next(iterator 1), next(iterator 2), kbest_matches_store(keep=False), '
              'kbest_matches_store(keep=True), reset+align} for 3 engines/layouts; non-trivial = tau branch taken or band/triangle active; history with >= 2 matches'
              % (4 if ctx.thorough else 3, 4 if ctx.thorough else 3),
-        bounds={'alphabet': list(univ.alphabet(univ.BASE3, ctx.seed)), 'history_data': '4 series pairs (2 self-comparisons) x 2 (tau,delta,delta_factor) x penalty{None,.1} x window{None,2}',
+        bounds={'alphabet': list(univ.alphabet(univ.BASE3, ctx.seed)), 'history_data': '6 series pairs (2 self-comparisons, 2 with the best alignment in the part of the band that exists only because series 2 is longer) x 2 (tau,delta,delta_factor) x penalty{None,.1} x window{None,2} / {1,2}',
                 'iterator_args': 'k{None,1,2} x minlen{1,2} x buffer{0,-1,1 (not compact)} x restart{T,F}'},
         assumptions=['reference = literal transcription of the recurrence in C18; excluded cells are -inf; tolerance 1e-12 (exp is not exact)',
                      'after a restart (restart=True iterator, kbest_matches_store) the first match / the stored matches must equal those of a fresh object', 'an un-restarted history ends when the mask is reset: first step of an iterator created with restart=True, kbest_matches_store (restart=True; and its end when keep=False), reset()',
